@@ -63,8 +63,8 @@ CHECKS = {
     },
     "C05": {
         "level": "exploration",
-        "rule": "exhaustive: block counts n=1..N x fan-outs b=2..B x chromosome splits {1,2,3} x {bigWig main+zoom indexes, bigBed main index}; the written tree is walked by the independent decoder (structure, spans, depth = ceil-log) and every boundary query (block starts/ends +-1) through the real reader is compared with a linear scan. non-trivial = tree with >=2 levels",
-        "require": ["index_queries", "zoom_index_queries", "trees_with_partial_nodes", "trees_with_4+_levels",
+        "rule": "exhaustive: block counts n=1..N x fan-outs b=2..B x chromosome splits {1,2,3} x {bigWig main+zoom indexes, bigBed main index, bigBed with nested spans (every 4th entry long, so node spans are not monotone in their end)}; the written tree is walked by the independent decoder (structure, spans, depth = ceil-log) and every boundary query (block starts/ends +-1) through the real reader is compared with a linear scan; every such query is also the FIRST query of a fresh caching reader, followed by every whole-chromosome query on the same reader (nodes cached while answering a narrow query must serve every later one). non-trivial = tree with >=2 levels",
+        "require": ["index_queries", "zoom_index_queries", "cached_first_query_histories", "trees_with_partial_nodes", "trees_with_4+_levels",
                     "main_index_levels_1", "main_index_levels_2", "main_index_levels_3"],
         "assumptions": E1_ASSUME,
     },
@@ -106,7 +106,7 @@ CHECKS = {
     "C18": {
         "level": "model_checking",
         "technique": "bounded-exhaustive enumeration of small text files for the indexer/chunker, and explicit-state breadth-first search over FileView read/seek histories on the real object against a reference cursor",
-        "rule": "(a) index_chroms on every file described by (1-4 chromosome runs x run lengths) x (uniform lines or one line x3/x10/x40 longer at every position) x final newline x {bedGraph, bed}, plus non-grouped orders: result = linear scan; (b) FileView over a 10-byte file, every window 0<=a<=b<=12: breadth-first search over read/seek operations (state = reported position, real object rebuilt by replaying the history) plus all operation sequences to a depth, each step compared with a reference cursor over bytes[a..b] (out-of-range seeks: no panic, position stays inside the window); (c) split_file_into_chunks_by_size for every chunk count 1..lines+2: a line-aligned partition; (d) records through per-chunk and per-chromosome views = serial record stream. states = positions reached per window, transitions = operations applied. non-trivial = >=2 runs / non-empty window",
+        "rule": "(a) index_chroms on every file described by (1-4 chromosome runs x run lengths) x (uniform lines or one line x3/x10/x40/x800/x1500 longer at every position - the last two exceed one / two 8 KiB reader buffers) x final newline x {bedGraph, bed}, plus non-grouped orders: result = linear scan; (b) FileView over a 10-byte file, every window 0<=a<=b<=12: breadth-first search over read/seek operations (state = reported position, real object rebuilt by replaying the history) plus all operation sequences to a depth, each step compared with a reference cursor over bytes[a..b] (out-of-range seeks: no panic, position stays inside the window); (c) split_file_into_chunks_by_size for every chunk count 1..lines+2: a line-aligned partition; (d) records through per-chunk and per-chromosome views = serial record stream. states = positions reached per window, transitions = operations applied. non-trivial = >=2 runs / non-empty window",
         "require": ["indexed_files", "non_grouped_files", "chunkings", "compositions", "view_windows", "view_histories"],
         "mc_counters": {"states": "view_states", "transitions": "view_transitions", "traces": "view_histories"},
         "assumptions": E1_ASSUME,
@@ -115,8 +115,8 @@ CHECKS = {
         "level": "exploration",
         "needs_cli": True,
         "mem_gb": 2,
-        "rule": "exhaustive: generated schema for every extra-column count 0..40 (declared fields counted independently, parsed, written and read back); supplied schemas stored verbatim with their declared field count; every schema of a grammar-based generator (all field forms x declaration types, 1-3 fields, 1-3 declarations) must parse with the generated counts; every character truncation and every single-token mutation of a schema core; every string up to a length bound over the delimiter alphabet with keyword prefixes/suffixes. Each parse runs under catch_unwind inside a worker with a 2 GB address-space cap and a wall cap (hang / unbounded growth = failure). non-trivial = every block",
-        "require": ["parses", "parses_ok", "parses_err", "schema_roundtrips", "grammar_schemas", "truncations", "token_mutations", "short_strings", "tool_schema_runs"],
+        "rule": "exhaustive: generated schema for every extra-column count 0..40 (declared fields counted independently, parsed, written and read back); supplied schemas (single table; helper declaration followed by the table) stored verbatim with the table's declared field count, through the library and through the tool with file input and with the BED on standard input (-, stdin, /dev/stdin; with --autosql and with a generated schema); every schema of a grammar-based generator (all field forms x declaration types, 1-3 fields, 1-3 declarations) must parse with the generated counts; every character truncation and every single-token mutation of a schema core; every string up to a length bound over the delimiter alphabet with keyword prefixes/suffixes. Each parse runs under catch_unwind inside a worker with a 2 GB address-space cap and a wall cap (hang / unbounded growth = failure). non-trivial = every block",
+        "require": ["parses", "parses_ok", "parses_err", "schema_roundtrips", "grammar_schemas", "truncations", "token_mutations", "short_strings", "tool_schema_runs", "tool_schema_runs_from_stdin"],
         "assumptions": E1_ASSUME + ["hang / unbounded growth verdicts are a 30 s wall cap and a 2 GB address-space cap per block of parses (a parse normally takes microseconds)"],
     },
     "C15": {
@@ -129,7 +129,7 @@ CHECKS = {
     "C17": {
         "level": "exploration",
         "needs_cli": True,
-        "rule": "exhaustive: for every WL(k) bigWig file and multi-chromosome core files, every region 0<=s<e<=16 on every chromosome through stats_for_bed_item and through the bigwig_average_over_bed iterator in 4 name modes; size, bases, sum, mean0, mean, min, max compared with the per-base array (NaN when nothing covered), one row per input row in order with the requested name; tool part: bigwigaverageoverbed on encoder-written bigWigs x region lists x name modes x --min-max x -t 1..16 (byte-identical for every thread count and equal to the reference at the printed precision) and bigwigvaluesoverbed. non-trivial = >=2 values in the file",
+        "rule": "exhaustive: for every WL(k) bigWig file and multi-chromosome core files, every region 0<=s<e<=16 on every chromosome through stats_for_bed_item and through the bigwig_average_over_bed iterator in 5 name modes (names plain, with blanks inside, empty); size, bases, sum, mean0, mean, min, max compared with the per-base array (NaN when nothing covered), one row per input row in order with the requested name; tool part: bigwigaverageoverbed on encoder-written bigWigs x region lists x name modes x --min-max x -t 1..16 (byte-identical for every thread count and equal to the reference at the printed precision) and bigwigvaluesoverbed. non-trivial = >=2 values in the file",
         "require": ["regions", "iterator_rows", "tool_average_runs", "tool_values_runs"],
         "assumptions": E1_ASSUME + ["regions on chromosomes absent from the bigWig are outside the property's domain",
                                     "zero-length stored values inside a region are don't-care for the extrema"],
@@ -139,19 +139,19 @@ CHECKS = {
         "needs_cli": True,
         "rule": "exhaustive cross product emitted by the independent encoder (harness/vh/src/enc.rs): {little, big endian} x {v1 raw, v2 raw, v3 raw/zlib, v4 raw/zlib} x 5 bigWig contents (bedGraph / variable-step / fixed-step sections, mixed) + 3 bigBed contents x chromosome-tree block sizes (single leaf and multi-level) x R-tree fan-outs x node placements (level order, depth first, children before the header, padded) x zoom variants x index-at-end / trailing magic; each file is first cross-checked by the independent decoder, then opened with BigWigRead/BigBedRead/GenericBBIRead, plain and cached: chroms, summary, all 153 ranges, values(), zoom queries, autosql, item count = encoded content. non-trivial = every file",
         "require": ["encoded_files", "big_endian_files", "compressed_files", "version1_files", "multi_level_chrom_tree_files",
-                    "files_with_3+_index_levels", "range_queries", "zoom_queries", "tool_convert_runs"],
-        "assumptions": E1_ASSUME + ["only combinations the published format allows are emitted (compression only from version 3, summary offset 0 only in version 1, sorted chromosome keys)",
+                    "files_with_3+_index_levels", "range_queries", "zoom_queries", "tool_convert_runs", "files_v2plus_without_summary"],
+        "assumptions": E1_ASSUME + ["only combinations the published format allows are emitted (compression only from version 3, a total summary only from version 2 - present or omitted there -, sorted chromosome keys)",
                                     "files that are not well-formed (reader robustness) are outside the statement"],
     },
     "C11": {
         "level": "model_checking",
-        "technique": "deviation-bounded exhaustive schedule exploration of the real writer pipeline on a current-thread runtime through cfg-guarded hook points (stateless, CHESS-style iterative bounding), composed with C12's loom exploration of the staging buffer; plus a labelled sampling sweep over real runtimes",
-        "rule": "layer 1: for each scenario (file type x source x pass x chromosomes/slots/channel/buffering) the real write runs on a current-thread tokio runtime; the hook points at every task start and hand-off ask the explorer whether to proceed or yield; ALL executions with at most `bound` yields are run (depth-first over deviation vectors, each execution deterministic and replayed from scratch); destination bytes must equal the 0-deviation run, no error, no hang; every 50th schedule is run twice and must reproduce. states = distinct hook-trace prefixes, transitions = hook events executed, traces validated = executions (each is an execution of the implementation). layer 3 (supplementary, sampling over OS schedules): thread counts x runtimes x channel sizes x buffering x sources x passes, repeated, bytes identical. The staging buffer's access-granularity interleavings are C12's",
-        "require": ["scenarios", "executions", "scenarios_with_2+_traces", "schedules_replayed_twice", "sweep_runs"],
+        "technique": "deviation-bounded exhaustive schedule exploration of the real writer pipeline on a current-thread runtime through cfg-guarded hook points (stateless, CHESS-style iterative bounding), composed with C12's loom exploration of the staging buffer; the same exploration of the multi-threaded text converters (write_bg / write_bed driven on a current-thread runtime by a cfg-guarded switch); plus a labelled sampling sweep over real runtimes",
+        "rule": "layer 1: for each scenario (file type x source x pass x chromosomes/slots/channel/buffering) the real write runs on a current-thread tokio runtime; the hook points at every task start and hand-off ask the explorer whether to proceed or yield; ALL executions with at most `bound` yields are run (depth-first over deviation vectors, each execution deterministic and replayed from scratch); destination bytes must equal the 0-deviation run, no error, no hang; file-source scenarios must also give the iterator source's bytes; layer 1b: the multi-threaded converters write_bg / write_bed on files of 2-4 chromosomes x thread counts (handle-channel capacity) 1/2/6/16 x staging in memory / in a file, incl. a 70 KB line: every execution's text must equal the single-threaded path's text (= the input text); every 50th schedule is run twice and must reproduce. states = distinct hook-trace prefixes, transitions = hook events executed, traces validated = executions (each is an execution of the implementation). layer 3 (supplementary, sampling over OS schedules): thread counts x runtimes x channel sizes x buffering x sources x passes, repeated, bytes identical. The staging buffer's access-granularity interleavings are C12's",
+        "require": ["scenarios", "executions", "scenarios_with_2+_traces", "schedules_replayed_twice", "sweep_runs", "converter_scenarios", "cross_source_comparisons"],
         "mc_counters": {"states": "distinct_trace_prefixes", "transitions": "hook_events", "traces": "executions"},
         "assumptions": ["tokio's current-thread scheduler is deterministic given which awaits return Pending",
                         "preemption inside a task between two hook points (only possible on a multi-thread runtime) is not explored by layer 1; layer 3 samples it",
-                        "the multi-threaded converters (bigwigtobedgraph / bigbedtobed) are covered by the command-line checks, not here"],
+                        "the converters' tasks are explored on a current-thread runtime (cfg-guarded switch); their free-running multi-thread behaviour is sampled by C16's command-line runs"],
     },
     "C16": {
         "level": "exploration",
@@ -177,7 +177,7 @@ HOOKS = {
     "guard": "--cfg bigtools_verif",
     "enable": "RUSTFLAGS=\"--cfg bigtools_verif\" (set in /verif/harness/.cargo/config.toml, so every harness build of /repo/bigtools has it on)",
     "baseline_off_cmd": "cd /repo && cargo test --workspace --no-fail-fast --offline",
-    "source_commits": ["69a033e"],
+    "source_commits": ["69a033e", "d51794c"],
     "add_only": True,
 }
 
